@@ -481,14 +481,13 @@ impl SlabRouter {
         if let Some(wal_mutex) = &self.wal {
             let mut wal = wal_mutex.lock();
 
-            // Log embedding if present
-            if let Some(TensorValue::Vector(embedding)) = value.get("_embedding") {
-                let entity_id = self.index.get_or_create(key);
-                wal.append(&WalEntry::EmbeddingSet {
-                    entity_id,
-                    embedding: embedding.clone(),
-                })
-                .map_err(|e| SlabRouterError::WalError(format!("Failed to log embedding: {e}")))?;
+            // One record per put: replaying `MetadataSet` also restores the
+            // embedding, under the entity id valid at replay time. A separate
+            // embedding record could be applied alone after a crash between
+            // the two appends, leaving a value that mixes two writes.
+            if let Some(TensorValue::Vector(_)) = value.get("_embedding") {
+                // Replay registers the key in the entity index; do the same here.
+                let _ = self.index.get_or_create(key);
             }
 
             // Log metadata set (sync behavior depends on WalConfig::sync_mode)
